@@ -399,5 +399,5 @@ func c02Gen(t *rapid.T) c02Case {
 func init() {
 	vfRapid("C02/sign-verify",
 		"non-trivial = the object has >= 2 members besides signatures/unsigned and the step applied is a value-changing single-member mutation or a re-serialisation that changes at least one byte; distinct = distinct Case JSON",
-		2000, 50000, 16, c02Gen, c02Check)
+		2000, 200000, 16, c02Gen, c02Check)
 }
